@@ -176,10 +176,33 @@ def r2(ctx, rep):
                   detail={"enumerated": n, "bad": bad[:10]}, file=vf["file"], line=vf["l"], fn=vf["path"])
     # Display
     dp = syn.fn("ident::display_ident_part", crate="prqlc_parser")
+    # by role: the predicate given to `starts_with(..)` and the one given to `.any(..)`, whether nested fn, local closure or inline
+    import guards as _g
+    par_ = _g.parents(dp["body"])
     inner = {n["name"]: n for n in walk(dp["body"]) if n.get("k") == "item_fn"}
-    fs, fsub = inner.get("forbidden_start"), inner.get("forbidden_subsequent")
-    if not fs or not fsub:
-        raise AnchorMissing("display_ident_part: forbidden_start / forbidden_subsequent")
+
+    def pred_body(arg):
+        if arg is None:
+            return None
+        if arg.get("k") == "closure":
+            return arg["body"]
+        if arg.get("k") == "path":
+            if arg["p"] in inner:
+                return tail_expr(inner[arg["p"]]["body"])
+            d = _g.visible_def_nodes(par_, arg, arg["p"])
+            if d is not None and d.get("init", {}).get("k") == "closure":
+                return d["init"]["body"]
+        return None
+    sw = [n for n in walk(dp["body"]) if n.get("k") == "mcall" and n["m"] == "starts_with" and n["a"]]
+    an = [n for n in walk(dp["body"]) if n.get("k") == "mcall" and n["m"] == "any" and n["a"]]
+    fs_body = pred_body(sw[0]["a"][0]) if sw else None
+    fsub_body = pred_body(an[0]["a"][0]) if an else None
+    if fs_body is None or fsub_body is None:
+        raise AnchorMissing("display_ident_part: predicates of `starts_with(..)` / `.any(..)`")
+
+    class _B(dict):
+        pass
+    fs, fsub = {"body": {"k": "block", "s": [fs_body]}}, {"body": {"k": "block", "s": [fsub_body]}}
     ps, psub = pred_of(tail_expr(fs["body"])), pred_of(tail_expr(fsub["body"]))
     if ps is None or psub is None:
         rep.bad("display:shape", "cannot interpret the character predicates of display_ident_part", file=dp["file"], line=dp["l"], fn=dp["path"])
@@ -189,9 +212,11 @@ def r2(ctx, rep):
         rep.check(not badf, "display:first", f"Ident Display prints names starting with {badf} bare, but the lexer's identifier cannot start with them (e.g. `$x` re-lexes as a parameter)", file=dp["file"], line=dp["l"], fn=dp["path"])
         rep.check(not badr, "display:rest", f"Ident Display prints names containing {badr} bare, but the lexer cannot lex them in an identifier", file=dp["file"], line=dp["l"], fn=dp["path"])
     # needs_escape combines: empty, first, rest
-    ne = [s for s in dp["body"]["s"] if s.get("k") == "local" and show(s["pat"]) == "needs_escape"]
-    txt = show(ne[0]["init"], maxdepth=14) if ne else ""
-    rep.check("s.is_empty()" in txt and "starts_with(forbidden_start)" in txt and "any(forbidden_subsequent)" in txt, "display:combine",
+    import alpha as _alpha
+    A_ = _alpha.Inliner(dp)
+    conds = [A_.show(n["c"]) for n in walk(dp["body"]) if n.get("k") == "if"]
+    txt = max(conds, key=len) if conds else ""
+    rep.check("s.is_empty()" in txt and ".starts_with(" in txt and ".any(" in txt and txt.count("||") >= 2, "display:combine",
               "display_ident_part must escape empty names, a forbidden first character and any forbidden later character", file=dp["file"], line=dp["l"], fn=dp["path"])
 
 
@@ -303,12 +328,14 @@ def r3(ctx, rep):
     rep.check(isinstance(fn_, int) and fn_ < call, "kinds:func<call", "a lambda as argument of a call must be parenthesised", file=f["file"], line=f["l"], fn=f["path"])
     # shape of needs_parenthesis
     np = syn.fn("codegen::ast::needs_parenthesis", crate="prqlc")
+    import alpha as _al
+    An = _al.Inliner(np)
     ifs = [n for n in np["body"]["s"] if n.get("k") == "if"]
-    conds = [show(i["c"]) for i in ifs]
+    conds = [An.show(i["c"]) for i in ifs]       # locals inlined: the node's strength is `binding_strength(&this.kind)` under any name
     rets = [show_stmts(i["t"]) for i in ifs]
     shape_ok = (len(ifs) >= 3 and conds[0] == "(opt.unbound_expr && can_bind_left(&this.kind))" and rets[0] == "return true"
-                and conds[1] == "(opt.context_strength > binding_strength)" and rets[1] == "return true"
-                and conds[2] == "(opt.context_strength < binding_strength)" and rets[2] == "return false")
+                and conds[1] == "(opt.context_strength > binding_strength(&this.kind))" and rets[1] == "return true"
+                and conds[2] == "(opt.context_strength < binding_strength(&this.kind))" and rets[2] == "return false")
     rep.check(shape_ok, "needs_parenthesis:shape", f"needs_parenthesis must compare context strength with the node's strength (>: parens, <: none); found {list(zip(conds, rets))}", file=np["file"], line=np["l"], fn=np["path"])
     am = [m for m in matches_of(np["body"]) if show(m["e"]) == "opt.binary_position"]
     ok = False
